@@ -85,6 +85,27 @@ func lifeRoots(o LifeOpts) []engine.Root {
 				}
 				return st
 			}
+		case "R5": // one replica, renewed, then migrated to a provider without funds: collateral debt exists
+			extra = func(w *world.World) []engine.SetupStep {
+				return []engine.SetupStep{
+					fixed(Tx("store", "store(setup)", StoreMsg(w, StoreP{Signer: world.O, Relayer: world.G, Gateway: world.G, DataId: world.Data1, CommitId: world.Data1, Size: size, Replica: 1, Duration: 7200, Timeout: 100}))),
+					CompleteNth(1, 0),
+					fixed(Tx("renew", "renew(setup)", RenewMsg(w, world.O, world.G, world.G, 7200, 100, world.Data1))),
+					func(w *world.World, ctx sdk.Context) engine.Op {
+						sh, _ := w.App.OrderKeeper.GetShard(ctx, 0)
+						other := world.S1
+						if w.A(world.S1).S() == sh.Sp {
+							other = world.S2
+						}
+						return SendOp(w, other, world.T, w.Bal(ctx, w.A(other).Addr).SubRaw(10), "drain(setup)")
+					},
+					func(w *world.World, ctx sdk.Context) engine.Op {
+						sh, _ := w.App.OrderKeeper.GetShard(ctx, 0)
+						return Tx("migrate", "migrate(setup)", &saotypes.MsgMigrate{Creator: sh.Sp, Provider: sh.Sp, Data: []string{world.Data1}})
+					},
+					CompleteNth(2, 0),
+				}
+			}
 		default:
 			panic("unknown root " + name)
 		}
@@ -167,12 +188,14 @@ func lifeOps(w *world.World, ctx sdk.Context, o LifeOpts) []engine.Op {
 		if o.Pending && ord.Status == ordertypes.OrderPending {
 			out = append(out, Tx("ready", fmt.Sprintf("ready(o%d)", ord.Id), &saotypes.MsgReady{Creator: ord.Provider, Provider: ord.Provider, OrderId: ord.Id}))
 		}
-		if ord.Operation == 3 {
-			continue
-		}
 		for _, sid := range ord.Shards {
 			sh, ok := a.OrderKeeper.GetShard(ctx, sid)
 			if !ok {
+				continue
+			}
+			// a renewal order lists the shards it renews; a migration requested after the renewal is created under
+			// it and is completed with its id
+			if ord.Operation == 3 && !(sh.Status == ordertypes.ShardMigrating && sh.OrderId == ord.Id) {
 				continue
 			}
 			if sh.Status == ordertypes.ShardWaiting || sh.Status == ordertypes.ShardMigrating {
@@ -353,11 +376,18 @@ func (o *LifeOracle) Step(si *engine.StepInfo) []engine.Finding {
 	}
 	market := world.ModAddr(markettypes.ModuleName).String()
 	for _, f := range si.Res.Flows {
-		if f.From == market && isModule(f.To) == "" && si.Op.Kind == "claim" {
-			if v, ok := g.Claimed[f.To]; ok {
-				g.Claimed[f.To] = v.Add(f.Amt)
+		if f.From == market && si.Op.Kind == "claim" {
+			// income paid to the claimer, or (market -> node escrow) used to repay the claimer's recorded collateral debt
+			to := f.To
+			if isModule(f.To) == nodetypes.ModuleName {
+				to = si.Op.Msg.GetSigners()[0].String()
+			} else if isModule(f.To) != "" {
+				continue
+			}
+			if v, ok := g.Claimed[to]; ok {
+				g.Claimed[to] = v.Add(f.Amt)
 			} else {
-				g.Claimed[f.To] = f.Amt
+				g.Claimed[to] = f.Amt
 			}
 		}
 	}
